@@ -226,6 +226,15 @@ class UB:
                     return list(self.F.const_array(k["from"]))
                 except Exception:
                     return None
+            mt = re.match(r"^&\[([iu])(8|16|32|64|size); (\d+)\]$", k.get("ty", ""))
+            raw = ((k.get("v") or {}).get("ptr") or {}).get("bytes") if isinstance(k.get("v"), dict) else None
+            if mt and raw:
+                # a promoted reference to a literal / named array: the byte image is in the operand
+                sz = {"8": 1, "16": 2, "32": 4, "64": 8, "size": 8}[mt.group(2)]
+                bs = bytes.fromhex(raw)
+                n = int(mt.group(3))
+                if len(bs) >= n * sz:
+                    return [int.from_bytes(bs[i * sz:(i + 1) * sz], "little", signed=(mt.group(1) == "i")) for i in range(n)]
             m = re.search(r"promoted\[(\d+)\]$", k.get("s", "") or "")
             if m:
                 proms = b.j.get("promoted") or []
@@ -253,6 +262,10 @@ class UB:
             return self._iter_table(b, {"c": d[3]["place"]}, depth + 1) if not d[3]["place"]["p"] or d[3]["place"]["p"] == ["*"] else None
         if d[2] == "call" and d[3]["args"] and self._ADAPT.search(strip_generics(callee_def(d[3]))):
             return self._iter_table(b, d[3]["args"][0], depth + 1)
+        if d[2] == "call" and len(d[3]["args"]) == 2 and re.search(r"ops::Index(Mut)?>?::index(_mut)?$|ops::index::Index(Mut)?::index(_mut)?$", strip_generics(callee_def(d[3]))):
+            ap = op_place(d[3]["args"][1])
+            if ap is not None and "Range" in b.local_ty(ap["l"]):
+                return self._iter_table(b, d[3]["args"][0], depth + 1)        # a sub-slice of the table holds a subset of its values
         return None
 
     def place_adt(self, b, p):
